@@ -37,6 +37,9 @@ def gen_knobs(rng, prop, profile):
     big = profile.get("big_requests", rng.random() < 0.30)
     K = wchoice(rng, [(50, rng.randint(3, 6)), (25, rng.randint(7, 10)), (25, rng.randint(11, 14))]) if big else \
         wchoice(rng, [(70, rng.randint(3, 5)), (30, rng.randint(6, 9))])
+    wide = profile.get("wide", False)
+    if wide:
+        K = rng.randint(52, 66)  # more uris than the pool has workers x chunk size (10 x 5)
     nres = rng.randint(max(1, K - 3), K)
     res_names = ["r%d" % i for i in range(nres)]
     if rng.random() < 0.15:
@@ -48,10 +51,10 @@ def gen_knobs(rng, prop, profile):
                 t = rng.choice(odd)
                 res_names[i] = (t % i) if "%d" in t else t + str(i)
     res_sizes = {}
-    huge = rng.random() < 0.06
+    huge = rng.random() < 0.06 and not wide
     for r in res_names:
         cls = wchoice(rng, [(w, c) for w, c in SIZE_CLASSES[:-1]] + ([(30, SIZE_CLASSES[-1][1])] if huge else []))
-        res_sizes[r] = rng.choice(cls)
+        res_sizes[r] = rng.choice(cls) if not wide else rng.choice([100, 200, 300])
     scheme_w = wchoice(rng, [(50, [(60, "sim"), (20, "https"), (20, "file")]), (20, [(100, "sim")]),
                              (15, [(100, "https")]), (15, [(100, "file")])])
     keys = []
@@ -146,6 +149,7 @@ def gen_knobs(rng, prop, profile):
         "cache_dir": wchoice(rng, [(70, "cache"), (6, "products[v2]/cache"), (5, "my cache dir"), (5, "c*che?"),
                                    (5, "data.d/cachefile_x_cachefile"), (5, "d\u00e9p\u00f4t/cache"), (4, "a/b/c/cache")]),
         "big_requests": big,
+        "wide": wide,
         "fine_grained": bool(profile.get("fine_grained", False)) or (big and rng.random() < 0.04),
     }
 
@@ -438,12 +442,19 @@ def duplicate_profile(rng, rec):
 def generate(prop, seed, profile=None):
     profile = profile or {}
     rng = random.Random(mix(seed, "gen", prop))
+    if "wide" not in profile and rng.random() < 0.015:
+        # a few runs with one very wide request (more than 50 uris: every pool worker busy, tasks queueing)
+        profile = dict(profile, wide=True, big_requests=True, length=rng.randint(2, 5))
     if prop == "C18" and "duplicates" not in profile and rng.random() < 0.05:
         profile = dict(profile, duplicates=True, big_requests=True, parallel=True)
     if prop == "C19" and "zombie" not in profile and not profile.get("fault_free") and rng.random() < 0.22:
         profile = dict(profile, zombie=True, big_requests=True, parallel=True)
     knobs = gen_knobs(rng, prop, profile)
     ops = gen_ops(rng, prop, knobs, profile)
+    if knobs.get("wide"):
+        K = len(knobs["keys"])
+        nid = max([o["id"] for o in ops if isinstance(o["id"], int)] + [0]) + 1
+        ops.insert(rng.randint(0, len(ops)), {"id": nid, "op": "GET", "keys": rng.sample(range(K), rng.randint(51, K)), "dt": 1000})
     rec = {"property": prop, "seed": seed, "knobs": knobs, "ops": ops, "faults": [], "crash": None, "clock_events": []}
     if knobs["clock"]["policy"] == "jumpy":
         for _ in range(rng.randint(1, 2)):
